@@ -53,14 +53,14 @@ Definition ok_incumbent (pre post : list pool) : bool :=
                             && after post allocatable q) pre)) pre.
 
 (* (3) while a terminating pool is still there after the reconcile, no overlapping pool has
-   become allocatable: whatever overlaps it and is allocatable was allocatable before *)
+   BECOME allocatable: whatever overlaps it and is allocatable was allocatable before *)
 Definition still_there (p : pool) : bool := negb (gone p).
 Definition ok_term_masks (pre post : list pool) : bool :=
   forallb (fun t =>
     implb (p_deleting t && after post still_there t)
       (forallb (fun p =>
          implb (negb (same_name t p) && pools_overlap t p && after post allocatable p)
-               (allocatable p && negb (p_deleting p))) pre)) pre.
+               (allocatable p)) pre)) pre.
 
 (* (4) the pool has an address block: some block lies inside its CIDR *)
 Definition kcovers (k b : kcidr) : bool :=
@@ -88,10 +88,33 @@ Definition ok_round (pre : list pool) (blocks : list rawcidr) (post : list pool)
   ok_same_pools pre post && ok_no_overlap post && ok_incumbent pre post
   && ok_term_masks pre post && ok_finalizers pre blocks post.
 
+(* ---- a pass in which some API writes fail ([sf]: pools whose status write fails, [uf]: pools
+   whose finalizer write fails).  Guaranteed after EVERY pass, whatever fails: the same pools
+   exist, (2), (3) and the first half of (4) (a protected terminating pool with a block keeps its
+   finalizer).  Guaranteed for the pools none of whose writes failed in this pass: (1) (two
+   allocatable pools whose status writes went through do not overlap) and the second half of (4)
+   (an allocatable in-service pool carries the finalizer).  A pool whose own write failed may
+   show a stale condition / finalizer until the requeued pass; with sf = uf = [] this is ok_round. *)
+Definition ok_no_overlap_f (sf : list (list N)) (post : list pool) : bool :=
+  forallb (fun p => forallb (fun q =>
+    implb (negb (same_name p q) && allocatable p && allocatable q
+           && negb (mem_name (p_name p) sf) && negb (mem_name (p_name q) sf))
+          (negb (pools_overlap p q))) post) post.
+Definition ok_finalizers_f (sf uf : list (list N)) (pre : list pool) (blocks : list rawcidr) (post : list pool) : bool :=
+  forallb (fun p =>
+    implb (p_deleting p && p_fin p && has_block p blocks) (after post p_fin p)
+    && implb (after post (fun q => allocatable q && negb (p_deleting q)) p
+              && negb (mem_name (p_name p) sf) && negb (mem_name (p_name p) uf)) (after post p_fin p)) pre.
+Definition ok_round_f (sf uf : list (list N)) (pre : list pool) (blocks : list rawcidr) (post : list pool) : bool :=
+  ok_same_pools pre post && ok_no_overlap_f sf post && ok_incumbent pre post
+  && ok_term_masks pre post && ok_finalizers_f sf uf pre blocks post.
+
 (* ---- one correspondence case: an initial configuration, then rounds of API operations
    followed by one reconcile, with what the driver observed around each reconcile *)
 Record round := mkRound {
   r_ops : list op;                 (* applied through the (simulated) API server before the reconcile *)
+  r_sfail : list (list N);         (* injected: UpdateStatus fails for these pools in this pass *)
+  r_ufail : list (list N);         (* injected: Update (finalizers) fails for these pools in this pass *)
   r_pre : list pool;               (* pools in the controller's cache when reconcile starts *)
   r_blocks : list rawcidr;         (* blocks in the controller's cache *)
   r_post : list pool;              (* pools in the datastore when reconcile returns *)
@@ -109,11 +132,11 @@ Fixpoint check_rounds (tf : bool) (s : state) (rs : list round) : bool * bool :=
   | [] => (true, true)
   | r :: rs' =>
       let s1 := fold_left api_step (r_ops r) s in
-      let out := reconcile tf (st_pools s1) (st_blocks s1) in
+      let out := reconcile_f tf (r_sfail r) (r_ufail r) (st_pools s1) (st_blocks s1) in
       let agree := pools_eqb (st_pools s1) (r_pre r) && blocks_eqb (st_blocks s1) (r_blocks r)
                    && pools_eqb (ro_pools out) (r_post r) && released_eqb (ro_released out) (r_released r)
                    && Bool.eqb (ro_err out) (r_err r) in
-      let ok := ok_round (r_pre r) (r_blocks r) (r_post r) in
+      let ok := ok_round_f (r_sfail r) (r_ufail r) (r_pre r) (r_blocks r) (r_post r) in
       let '(a, k) := check_rounds tf (mkState (gc (ro_pools out)) (st_blocks s1)) rs' in
       (agree && a, ok && k)
   end.
